@@ -13,6 +13,19 @@ import (
 	"go.uber.org/zap"
 )
 
+// c18SCtx: 0 live, 1 already cancelled, 2 deadline already expired
+func c18SCtx(kind int) (context.Context, context.CancelFunc) {
+	switch kind {
+	case 1:
+		ctx, cf := context.WithCancel(context.Background())
+		cf()
+		return ctx, cf
+	case 2:
+		return context.WithDeadline(context.Background(), time.Now().Add(-time.Second))
+	}
+	return context.Background(), func() {}
+}
+
 // TestVerifC18Stress: the model treats Start / Shutdown as atomic steps (one label each) because the code takes
 // refCounterLock; this test exercises that assumption with NATIVE goroutines in real time: N sharers do Start … Shutdown
 // pairs concurrently (with a 200 µs ticker running checks in between). Every Shutdown that follows its own Start must
@@ -53,9 +66,12 @@ func TestVerifC18Stress(t *testing.T) {
 				}()
 				x := seeds[g] | 1
 				for i := 0; i < pairs; i++ {
-					if err := ml.Start(context.Background(), nil); err != nil {
+					// a third of the calls with an already cancelled / expired context: Start and Shutdown ignore it
+					sctx, scf := c18SCtx(int(x>>20) % 3 * int((x>>24)%2))
+					if err := ml.Start(sctx, nil); err != nil {
 						failed.Add(1)
 					}
+					scf()
 					x ^= x << 13
 					x ^= x >> 7
 					x ^= x << 17
@@ -65,9 +81,11 @@ func TestVerifC18Stress(t *testing.T) {
 					case 1:
 						time.Sleep(time.Duration(x%300) * time.Microsecond)
 					}
-					if err := ml.Shutdown(context.Background()); err != nil {
-						failed.Add(1) // its own Start precedes: the count cannot be 0 here
+					dctx, dcf := c18SCtx(int(x>>28) % 3 * int((x>>32)%2))
+					if err := ml.Shutdown(dctx); err != nil {
+						failed.Add(1) // its own Start precedes: the count cannot be 0 here, whatever the context
 					}
+					dcf()
 				}
 			}(g)
 		}
